@@ -6,14 +6,15 @@ Local Open Scope list_scope.
    ServeSSO / ServeIDPInitiated that the correspondence check evaluates against
    the real server), for every history of operations, every fault plan (any
    placement of NotFound / I/O errors on the store calls) and every password
-   hashing scheme with  verify (hash p) p' = true <-> p = p'  and
+   hashing scheme with  verify (hash p) p' = true <-> norm p = norm p'  and
    verify empty_hash p = false. *)
 Section C19.
 Variable H : Type.
 Variable hash : string -> H.
 Variable verify : H -> string -> bool.
 Variable empty_hash : H.
-Hypothesis verify_hash : forall p p', verify (hash p) p' = true <-> p = p'.
+Variable norm : string -> string.
+Hypothesis verify_hash : forall p p', verify (hash p) p' = true <-> norm p = norm p'.
 Hypothesis verify_empty : forall p, verify empty_hash p = false.
 
 (* In the history h1 ++ o :: h2 run from the empty server: if the reply to o
@@ -37,7 +38,7 @@ Theorem C19_assertion_only_if_authenticated : forall now h1 o h2 fp,
                       exists sj oj fpj rsj,
                         In (sj, oj, fpj, rsj) (trace hash verify empty_hash (init_state H now) h1 fp) /\
                         pw_auth_at H verify sj oj id (se_user se))).
-Proof. exact (assertion_only_if_authenticated H hash verify empty_hash verify_hash verify_empty). Qed.
+Proof. exact (assertion_only_if_authenticated H hash verify empty_hash norm verify_hash verify_empty). Qed.
 
 (* ... the target SP's entity ID is in the in-memory registry at that step, the
    ACS location is one of that metadata's, and it is the SP the request (or the
@@ -45,7 +46,7 @@ Proof. exact (assertion_only_if_authenticated H hash verify empty_hash verify_ha
 Theorem C19_registered_now : forall now h fp s o fpi rs r a,
   In (s, o, fpi, rs) (trace hash verify empty_hash (init_state H now) h fp) -> In r rs -> r_body r = BAssertion a ->
   registered H s o a.
-Proof. exact (registered_now H hash verify empty_hash verify_hash verify_empty). Qed.
+Proof. exact (registered_now H hash verify empty_hash norm verify_hash verify_empty). Qed.
 
 (* the identity fields of the assertion are the user's record at this very
    login (password path) or the snapshot stored in the session (cookie path) ... *)
@@ -56,18 +57,18 @@ Theorem C19_user_as_at_login : forall s o fp s' rs fp' r a,
         a_user a = u_name u /\ a_nameid a = p_email (u_prof u) /\ a_prof a = u_prof u) \/
      (parsed && nonempty (cr_user c) = false /\ exists id se, cr_cookie c = Some id /\ alookup id (sessions s) = Some se /\
         a_user a = se_user se /\ a_nameid a = se_nameid se /\ a_prof a = se_prof se)).
-Proof. exact (user_as_at_login H hash verify empty_hash verify_hash verify_empty). Qed.
+Proof. exact (user_as_at_login H hash verify empty_hash norm verify_hash verify_empty). Qed.
 
 (* ... and no operation (PutUser and DelUser included) changes a stored session *)
 Theorem C19_session_snapshot_stable : forall s o fp s' rs fp' id se se',
   ids_fresh H s -> rand s < 10 ^ 20 -> step hash verify empty_hash s o fp = (s', rs, fp') ->
   alookup id (sessions s) = Some se -> alookup id (sessions s') = Some se' -> se' = se.
-Proof. exact (step_sessions_stable H hash verify empty_hash verify_hash verify_empty). Qed.
+Proof. exact (step_sessions_stable H hash verify empty_hash norm verify_hash verify_empty). Qed.
 
 (* the invariant used above holds in every reachable state *)
 Theorem C19_invariant_reachable : forall now h fp,
   Inv H (fst (run_hist hash verify empty_hash (init_state H now) h fp)).
-Proof. intros. apply (run_inv H hash verify empty_hash verify_hash verify_empty), init_inv. Qed.
+Proof. intros. apply (run_inv H hash verify empty_hash norm verify_hash verify_empty), init_inv. Qed.
 
 (* stored password hashes are never disclosed: the only reply that carries a
    user record (GET /users/id) carries the empty hash; no other reply body has
@@ -87,16 +88,18 @@ Proof. exact (step_one_reply H hash verify empty_hash). Qed.
 Theorem C19_faults_fail_closed : forall s o fp s' rs fp' r a,
   Inv H s -> step hash verify empty_hash s o fp = (s', rs, fp') -> In r rs -> r_body r = BAssertion a ->
   exists n, fp' = skipn n fp /\ clean n fp.
-Proof. intros s o fp s' rs fp' r a I E Hr Hb. now destruct (step_assertion H hash verify empty_hash verify_hash verify_empty _ _ _ _ _ _ _ _ I E Hr Hb) as (_ & _ & X). Qed.
+Proof. intros s o fp s' rs fp' r a I E Hr Hb. now destruct (step_assertion H hash verify empty_hash norm verify_hash verify_empty _ _ _ _ _ _ _ _ I E Hr Hb) as (_ & _ & X). Qed.
 
-(* "correct password" is exact: in every reachable state, a stored hash verifies
-   a presented password iff it is the hash made from that very password (the
-   last PUT that carried one); the empty hash of a user stored without a
+(* "correct password" is exact up to bcrypt's key derivation [norm] (the password
+   and a NUL byte repeated to 72 bytes: bytes beyond 72 do not count): in every
+   reachable state a stored hash verifies a presented password iff it is the hash
+   made from a password with the same 72 key bytes (the last PUT that carried one;
+   a PUT with more than 72 bytes fails and stores nothing); the empty hash of a user stored without a
    password verifies nothing, the empty password included *)
 Theorem C19_password_exact : forall now h fp n u pw,
   alookup n (users (fst (run_hist hash verify empty_hash (init_state H now) h fp))) = Some u ->
-  (verify (u_hash u) pw = true <-> u_hash u = hash pw).
-Proof. exact (password_exact H hash verify empty_hash verify_hash verify_empty). Qed.
+  (verify (u_hash u) pw = true <-> exists p, u_hash u = hash p /\ norm p = norm pw).
+Proof. exact (password_exact H hash verify empty_hash norm verify_hash verify_empty). Qed.
 
 (* The in-memory registry is exactly what the stored services say (entity ID e
    is registered with metadata md iff some stored service id holds md with that
@@ -108,7 +111,7 @@ Theorem C19_registry_consistent : forall now h fp,
   let s := fst (run_hist hash verify empty_hash (init_state H now) h fp) in
   forall e md, alookup e (registry s) = Some md <-> exists id, alookup id (services s) = Some md /\ md_entity md = e.
 Proof.
-  intros now h fp HN. apply (registry_consistent H hash verify empty_hash verify_hash verify_empty h _ _); [|exact HN].
+  intros now h fp HN. apply (registry_consistent H hash verify empty_hash norm verify_hash verify_empty h _ _); [|exact HN].
   split; cbn; [constructor|]. intros e md. split; [discriminate|]. intros (id & X & _). discriminate.
 Qed.
 
@@ -120,7 +123,7 @@ Theorem C19_restart_refines : forall now h1 h2 fp,
   replies hash verify empty_hash (init_state H now) (h1 ++ Restart :: h2) fp =
   replies hash verify empty_hash (init_state H now) h1 fp ++
   [] :: skipn (List.length h1) (replies hash verify empty_hash (init_state H now) (h1 ++ h2) fp).
-Proof. exact (restart_refines H hash verify empty_hash verify_hash verify_empty). Qed.
+Proof. exact (restart_refines H hash verify empty_hash norm verify_hash verify_empty). Qed.
 
 End C19.
 
@@ -148,8 +151,25 @@ Proof. split; [exact assertion_reachable|exact assertion_refused]. Qed.
 
 (* the hypothesis of the two restart theorems is satisfiable *)
 Theorem C19_restart_hypothesis_satisfiable :
-  hist_nodup H0 hash0 verify0 empty0 (init_state H0 0) [PutService "a" ex_md1; Restart] [].
+  hist_nodup H0 hash0 verify0 empty0 (init_state H0 0) [PutService "a" (MdSingle ex_md1); Restart] [].
 Proof. exact restart_hypothesis_satisfiable. Qed.
+
+(* PUT /services/{id} with an EntitiesDescriptor aggregate registers its first
+   entity that has an SPSSODescriptor and no other; passwords of more than 72
+   bytes are refused and change nothing *)
+Theorem C19_aggregate_and_password_boundary :
+  (has_assertion (last_reply (agg_history "https://sp1/metadata") []) = true /\
+   has_assertion (last_reply (agg_history "https://sp2/metadata") []) = false /\
+   has_assertion (last_reply (agg_history "https://idp-only/metadata") []) = false) /\
+  (let h1 := [PutUser "alice" (Some "pw1") ex_prof; PutService "a" (MdSingle ex_md1); PutUser "alice" (Some (p72 +++ "x")) ex_prof] in
+   let h2 := [PutUser "alice" (Some p72) ex_prof; PutService "a" (MdSingle ex_md1)] in
+   has_assertion (last_reply (h1 ++ [Sso (mkrq "https://sp1/metadata" "") (Password "alice" "pw1")]) []) = true /\
+   has_assertion (last_reply (h1 ++ [Sso (mkrq "https://sp1/metadata" "") (Password "alice" (p72 +++ "x"))]) []) = false /\
+   has_assertion (last_reply (h1 ++ [Sso (mkrq "https://sp1/metadata" "") (Password "alice" p72)]) []) = false /\
+   has_assertion (last_reply (h2 ++ [Sso (mkrq "https://sp1/metadata" "") (Password "alice" p72)]) []) = true /\
+   has_assertion (last_reply (h2 ++ [Sso (mkrq "https://sp1/metadata" "") (Password "alice" (p72 +++ "tail"))]) []) = true /\
+   has_assertion (last_reply (h2 ++ [Sso (mkrq "https://sp1/metadata" "") (Password "alice" (take 71 p72))]) []) = false).
+Proof. split; [exact aggregate_registers_first_sp|exact password_length_boundary]. Qed.
 
 (* Known finding K3 (two service ids with one entity ID): the hypothesis
    nodup_entity of the restart theorems cannot be dropped *)
@@ -171,4 +191,5 @@ Print Assumptions C19_restart_refines.
 Print Assumptions C19_monitor_holds_of_model.
 Print Assumptions C19_assertion_reachable_and_refused.
 Print Assumptions C19_restart_hypothesis_satisfiable.
+Print Assumptions C19_aggregate_and_password_boundary.
 Print Assumptions C19_duplicate_entity_refuted.
